@@ -204,6 +204,12 @@ func checkC19(c *Ctx) {
 		c.evalAcceptRule(p, "C19.encode", fp+": SplitBits(16) into 4 bits is refused", sb, map[string]lat{"v": latSliceLen(4), "n": latInt(16)}, nil, false)
 		c.evalAcceptRule(p, "C19.encode", fp+": SplitBits(15) into 4 bits is accepted", sb, map[string]lat{"v": latSliceLen(4), "n": latInt(15)}, nil, true)
 		c.evalAcceptRule(p, "C19.encode", fp+": SplitBits(1) into 0 bits is refused", sb, map[string]lat{"v": latSliceLen(0), "n": latInt(1)}, nil, false)
+		// the widest legal width: 64 bits hold every uint64 (a bound computed as 1<<width is 0 there)
+		c.evalAcceptRule(p, "C19.encode", fp+": SplitBits(0) into 64 bits is accepted", sb, map[string]lat{"v": latSliceLen(64), "n": latInt(0)}, nil, true)
+		c.evalAcceptRule(p, "C19.encode", fp+": SplitBits(2^64-1) into 64 bits is accepted", sb, map[string]lat{"v": latSliceLen(64), "n": {k: kConst, c: constant.MakeUint64(1<<64 - 1)}}, nil, true)
+		c.evalAcceptRule(p, "C19.encode", fp+": SplitBits(2^63) into 63 bits is refused", sb, map[string]lat{"v": latSliceLen(63), "n": {k: kConst, c: constant.MakeUint64(1 << 63)}}, nil, false)
+		c.evalAcceptRule(p, "C19.encode", fp+": SplitBits(2^63-1) into 63 bits is accepted", sb, map[string]lat{"v": latSliceLen(63), "n": {k: kConst, c: constant.MakeUint64(1<<63 - 1)}}, nil, true)
+		c.evalAcceptRule(p, "C19.encode", fp+": SplitBits(0) into 0 bits is accepted", sb, map[string]lat{"v": latSliceLen(0), "n": latInt(0)}, nil, true)
 	}
 	// the validity circuits hand the range check the number of gadget calls the proof system gave them (the
 	// proof has one wire value per call: a count derived differently, e.g. by a truncating division of the
